@@ -398,6 +398,20 @@ func runC01R7Named(c *Ctx, rule string) {
 		}
 		c.ok(rule, key, p.Exit, "Validate ok, ticket decoded from Validate's value")
 	})
+	runValidateChain(c, rule)
+}
+
+// runValidateChain: Validate ok => checkSignature => checkHmac(signature, cookieSignature) => hmac.Equal
+// (C01.R7, C02.R3; also C03.R2: the CSRF cookie is only as good as this chain).
+func runValidateChain(c *Ctx, rule string) {
+	validate := c.Fn(rule, "pkg/encryption.Validate")
+	checkSig := c.Fn(rule, "pkg/encryption.checkSignature")
+	checkHmac := c.Fn(rule, "pkg/encryption.checkHmac")
+	cookieSig := c.Fn(rule, "pkg/encryption.cookieSignature")
+	hmacEqual := c.StdFunc(rule, "crypto/hmac.Equal")
+	if validate == nil || checkSig == nil || checkHmac == nil || cookieSig == nil || hmacEqual == nil {
+		return
+	}
 	// Validate: ok ⇒ checkSignature
 	c.Walk(rule, validate, func(p *walk.Path) {
 		rv, ok := p.ReturnDV(2)
